@@ -44,18 +44,29 @@ def dec(x):
         return float.fromhex(x["v"])
     if t == "seq":
         return [float(i) for i in range(x["n"])]
+    if t == "inf":
+        return float("inf") if x["pos"] else float("-inf")
+    if t == "npint":
+        return getattr(np, x["dt"])(int(x["v"]))
+    if t == "npfloat":
+        v = getattr(np, x["dt"])(float.fromhex(x["v"]))
+        if float(v) != float.fromhex(x["v"]):
+            raise ValueError("value is not exact in " + x["dt"])
+        return v
+    if t == "npnan":
+        return getattr(np, x.get("dt", "float32"))("nan")
     raise ValueError(t)
 
 
 def same_value(a, b) -> bool:
-    if isinstance(b, float) and math.isnan(b):
-        return isinstance(a, float) and math.isnan(a)
+    if isinstance(b, (float, np.floating)) and math.isnan(b):
+        return isinstance(a, (float, np.floating)) and math.isnan(a)
     if isinstance(b, list):
         try:
             return list(a) == b
         except TypeError:
             return False
-    return a == b and (a is None) == (b is None)
+    return bool(a == b) and (a is None) == (b is None)
 
 
 def classify_exc(ex) -> dict:
@@ -132,19 +143,50 @@ def py_readout(rdoc):
     return Readout(**rdoc)
 
 
+def py_outputs(kind: str, odoc):
+    if odoc is None:
+        return None
+    from pyxel import outputs as po
+
+    cls = {"exposure": po.ExposureOutputs, "observation": po.ObservationOutputs,
+           "calibration": po.CalibrationOutputs}[kind]
+    return cls(**copy.deepcopy(odoc))
+
+
 def py_mode(kind: str, mdoc: dict):
     mdoc = copy.deepcopy(mdoc or {})
     if kind == "exposure":
         from pyxel.exposure import Exposure
 
-        return Exposure(readout=py_readout(mdoc.get("readout")), result_type=mdoc.get("result_type", "all"),
-                        pipeline_seed=mdoc.get("pipeline_seed"))
+        kw = {k: mdoc[k] for k in ("result_type", "pipeline_seed", "working_directory") if k in mdoc}
+        if "outputs" in mdoc:
+            kw["outputs"] = py_outputs(kind, mdoc["outputs"])
+        return Exposure(readout=py_readout(mdoc.get("readout")), **kw)
     if kind == "observation":
         from pyxel.observation import Observation, ParameterValues
 
         params = [ParameterValues(**p) for p in mdoc["parameters"]]
-        kw = {k: mdoc[k] for k in ("mode", "with_dask", "result_type", "pipeline_seed") if k in mdoc}
+        kw = {k: mdoc[k] for k in ("mode", "with_dask", "result_type", "pipeline_seed", "working_directory")
+              if k in mdoc}
+        if "outputs" in mdoc:
+            kw["outputs"] = py_outputs(kind, mdoc["outputs"])
         return Observation(parameters=params, readout=py_readout(mdoc.get("readout")), **kw)
+    if kind == "calibration":
+        from pyxel.calibration import Algorithm, Calibration
+        from pyxel.observation import ParameterValues
+        from pyxel.pipelines import FitnessFunction
+
+        kw = {k: v for k, v in mdoc.items()
+              if k not in ("readout", "outputs", "fitness_function", "algorithm", "parameters", "result_input_arguments")}
+        if "outputs" in mdoc:
+            kw["outputs"] = py_outputs(kind, mdoc["outputs"])
+        if "result_input_arguments" in mdoc:
+            kw["result_input_arguments"] = [ParameterValues(**q) for q in mdoc["result_input_arguments"]]
+        ff = mdoc["fitness_function"]
+        return Calibration(fitness_function=FitnessFunction(func=ff["func"], arguments=ff.get("arguments")),
+                           algorithm=Algorithm(**mdoc["algorithm"]),
+                           parameters=[ParameterValues(**q) for q in mdoc["parameters"]],
+                           readout=py_readout(mdoc.get("readout")), **kw)
     raise ValueError(kind)
 
 
@@ -206,7 +248,10 @@ def handle_guard(p):
                 if field == "avalanche_gain" and x is None:
                     kw["common_voltage"] = 2.0      # the bias must then come from the two voltages
                 obj = C(**kw)
-            stored = obj.to_dict().get(field)
+            try:
+                stored = obj.to_dict().get(field)
+            except AttributeError:      # Environment.to_dict() cannot serialise a wavelength carried by a numpy scalar
+                stored = getattr(obj, "_" + field)
         elif path == "yaml":
             sec[sec_name] = {**sec[sec_name], field: x}
             if field == "avalanche_gain" and x is None:
@@ -224,6 +269,18 @@ def handle_guard(p):
                 proc = Processor(detector=detector, pipeline=py_pipeline(empty_pipeline()))
                 proc.set(key=f"detector.{sec_name}.{field}", value=x)
             stored = getattr(obj, "_" + field, None)
+        elif path == "obsrun":
+            # one point of a real observation over the field (after a valid first point, so that the run itself works)
+            from pyxel.observation import Observation, ParameterValues
+
+            good = sec[sec_name].get(field)
+            detector = py_detector(det, sec)
+            values = [x] if good is None or same_value(good, x) else [good, x]     # the points of a sweep are distinct
+            obs = Observation(parameters=[ParameterValues(key=f"detector.{sec_name}.{field}", values=values)],
+                              with_dask=bool(p.get("dask")))
+            res = pyxel.run_mode(mode=obs, detector=detector, pipeline=py_pipeline(empty_pipeline()))
+            tree_fingerprint(res)       # forces the computation of every point
+            stored = x
         else:
             raise ValueError(path)
     except Exception as ex:  # noqa: BLE001
@@ -298,6 +355,33 @@ def func_name(model, doc_func):
     return f"{getattr(f, '__module__', '?')}.{getattr(f, '__name__', '?')}"
 
 
+def canon_save(v):
+    """[{name: [formats]}, ...] -> [[name, [formats]], ...]"""
+    if v is None:
+        return None
+    return [[str(k), [str(f) for f in fmts]] for d in v for k, fmts in dict(d).items()]
+
+
+def outputs_settings(out, prefix, o, data_key):
+    out[prefix + ".present"] = o is not None
+    if o is None:
+        return
+    out[prefix + ".output_folder"] = Path(o.output_folder).as_posix()
+    out[prefix + ".custom_dir_name"] = jleaf(o.custom_dir_name)
+    out[prefix + ".save_data_to_file"] = canon_save(o.save_data_to_file)
+    for attr in (data_key, "_" + data_key, "_" + data_key + "_deprecated"):
+        if hasattr(o, attr):
+            out[prefix + "." + data_key] = canon_save(getattr(o, attr))
+            break
+    else:
+        out[prefix + "." + data_key] = "<missing>"
+
+
+ALGO_PARAMS = ("type", "generations", "population_size", "variant", "variant_adptv", "ftol", "xtol", "memory", "cr",
+               "eta_c", "m", "param_m", "param_s", "crossover", "mutation", "selection", "nlopt_solver", "maxtime",
+               "maxeval", "xtol_rel", "xtol_abs", "ftol_rel", "ftol_abs", "stopval", "replacement", "nlopt_selection")
+
+
 def read_settings(cfg, doc) -> dict:
     out = {}
     det = cfg.detector
@@ -318,8 +402,10 @@ def read_settings(cfg, doc) -> dict:
     out["mode.readout.non_destructive"] = jleaf(ro.non_destructive)
     out["mode.pipeline_seed"] = jleaf(mode.pipeline_seed)
     out["mode.result_type"] = jleaf(str(mode.result_type))
-    if mode.outputs is not None:
-        out["mode.outputs.output_folder"] = jleaf(str(mode.outputs.output_folder))
+    out["mode.working_directory"] = None if mode.working_directory is None else str(mode.working_directory)
+    outputs_settings(out, "mode.outputs", mode.outputs, {"exposure": "save_exposure_data",
+                                                         "observation": "save_observation_data",
+                                                         "calibration": "save_calibration_data"}.get(kind, "?"))
 
     def params(prefix, plist):
         for i, pv in enumerate(plist):
@@ -349,13 +435,22 @@ def read_settings(cfg, doc) -> dict:
         out["mode.num_best_decisions"] = jleaf(mode.num_best_decisions)
         out["mode.topology"] = jleaf(mode.topology)
         alg = mode.algorithm
-        for a in ("type", "generations", "population_size", "variant"):
-            v = getattr(alg, a)
+        for a in ALGO_PARAMS:
+            v = getattr(alg, a, getattr(alg, "_" + a, "<missing>"))
             out[f"mode.algorithm.{a}"] = jleaf(getattr(v, "value", v))
         ff = mode.fitness_function
         want = doc["calibration"]["fitness_function"]["func"]
         out["mode.fitness_function.func"] = want if _resolves(want, ff) else "<another function>"
+        fargs = getattr(ff, "_arguments", "<missing>")
+        out["mode.fitness_function.arguments.count"] = None if fargs is None else len(fargs)
+        for a, v in (fargs or {}).items():
+            out[f"mode.fitness_function.arguments.{a}"] = jleaf(v)
         params("mode.parameters", list(mode.parameters))
+        params("mode.result_input_arguments", list(mode.result_input_arguments))
+        out["mode.type_islands"] = jleaf(getattr(mode._type_islands, "value", mode._type_islands))
+        out["mode.weights"] = jleaf(mode.weights)
+        out["mode.weights_from_file"] = jleaf(None if mode.weights_from_file is None
+                                               else [Path(q).name for q in mode.weights_from_file])
     pdoc = doc.get("pipeline") or {}
     for g in GROUPS:
         grp = getattr(cfg.pipeline, g)
@@ -441,19 +536,191 @@ def run_both(cfg, doc):
     return {"same": same, "diff": [str(a)[:200], str(b)[:200]], "n_vars": 0, "ran": False}
 
 
+
+# ------------------------------------------------------------------------------------------ derived readouts
+
+
+def readout_settings(ro) -> dict:
+    return {"mode.readout.times": jleaf(np.asarray(ro.times, dtype=float)),
+            "mode.readout.start_time": jleaf(ro.start_time),
+            "mode.readout.non_destructive": jleaf(ro.non_destructive)}
+
+
+def do_derive(cfg, op) -> dict:
+    """one derivation from the loaded readout: replace(**changes) | the setters (for `times` of an observation: through
+    Processor.replace({'observation.readout.times': v}), the path of a sweep) | deepcopy"""
+    ro = cfg.running_mode.readout
+    before = readout_settings(ro)
+    ch = dict(op["changes"])
+    try:
+        if op["op"] == "replace":
+            new = ro.replace(**ch)
+        elif op["op"] == "setter":
+            if set(ch) == {"times"} and type(cfg.running_mode).__name__ == "Observation":
+                from pyxel.pipelines import Processor
+
+                proc = Processor(detector=cfg.detector, pipeline=cfg.pipeline, observation_mode=cfg.running_mode)
+                new = proc.replace({"observation.readout.times": ch["times"]}).observation.readout
+            else:
+                new = copy.deepcopy(ro)
+                for k, v in ch.items():
+                    setattr(new, k, v)
+        elif op["op"] == "copy":
+            new = copy.deepcopy(ro)
+        else:
+            raise ValueError(op["op"])
+    except Exception as ex:  # noqa: BLE001
+        return {"raised": type(ex).__name__, "msg": str(ex)[:200], "before": before, "after": readout_settings(ro)}
+    return {"settings": readout_settings(new), "same_object": new is ro, "before": before,
+            "after": readout_settings(ro)}
+
+
+# ------------------------------------------------------------------------------------------ sweep over the readout times
+
+
+def _values_equal(a, b) -> bool:
+    a = np.asarray(a, dtype=float)
+    b = np.asarray(b, dtype=float)
+    return a.shape == b.shape and bool(np.array_equal(a, b, equal_nan=True))
+
+
+def handle_sweeprun(p):
+    """A loaded observation that sweeps 'observation.readout.times' (with dask: Readout.replace(times=...) per point)
+    against (a) one Exposure per point built in Python with the readout settings of the file and (b) the same
+    Observation built in Python."""
+    import pyxel
+    from pyxel.exposure import Exposure, Readout
+
+    doc = p["doc"]
+    try:
+        cfg = pyxel.load(dump_yaml(doc, "sweep"))
+    except Exception as ex:  # noqa: BLE001
+        return {"loaded": False, "exc": type(ex).__name__, "msg": str(ex)[:300]}
+    dk = [k for k in DET_KEY.values() if k in doc][0]
+    det = dk.split("_")[0]
+    obs = doc["observation"]
+    ro = obs.get("readout") or {}
+    par = [q for q in obs["parameters"] if q["key"] == "observation.readout.times"][0]
+    out = {"loaded": True, "settings": readout_settings(cfg.running_mode.readout)}
+    try:
+        res = pyxel.run_mode(mode=cfg.running_mode, detector=cfg.detector, pipeline=cfg.pipeline)
+    except Exception as ex:  # noqa: BLE001
+        out.update(ran=False, exc=type(ex).__name__, msg=str(ex)[:300])
+        return out
+    out["ran"] = True
+    bucket = res["bucket"] if "bucket" in res.children else res
+    diff = []
+    for t in par["values"]:
+        d2 = copy.deepcopy(doc)
+        exp = Exposure(readout=Readout(times=[t], start_time=ro.get("start_time", 0.0),
+                                       non_destructive=ro.get("non_destructive", False)),
+                       pipeline_seed=obs.get("pipeline_seed"))
+        ref = pyxel.run_mode(mode=exp, detector=py_detector(det, d2[dk]), pipeline=py_pipeline(d2["pipeline"]))
+        for var in ("photon", "charge", "pixel", "signal", "image"):
+            try:
+                got = bucket[var].sel(time=t).values
+                want = ref[var].isel(time=0).values
+            except Exception as ex:  # noqa: BLE001
+                diff.append(f"{var}@{t}: {type(ex).__name__}")
+                continue
+            if not _values_equal(got, want):
+                g, w = np.asarray(got, dtype=float), np.asarray(want, dtype=float)
+                diff.append(f"{var}@{t}: sweep {g.flat[0] if g.size else None!r} vs python-built {w.flat[0] if w.size else None!r}")
+    out["points"] = len(par["values"])
+    out["same_points"] = not diff
+    out["diff"] = diff[:6]
+    # (b) the same observation built in Python
+    d3 = copy.deepcopy(doc)
+    try:
+        res2 = pyxel.run_mode(mode=py_mode("observation", d3["observation"]), detector=py_detector(det, d3[dk]),
+                              pipeline=py_pipeline(d3["pipeline"]))
+        fa, fb = tree_fingerprint(res), tree_fingerprint(res2)
+        bd = sorted(k for k in set(fa) | set(fb) if fa.get(k) != fb.get(k))
+        out["same_built"] = not bd
+        out["diff_built"] = bd[:6]
+    except Exception as ex:  # noqa: BLE001
+        out["same_built"] = False
+        out["diff_built"] = [f"python-built observation raised {type(ex).__name__}: {str(ex)[:200]}"]
+    return out
+
+
+class _Built:
+    pass
+
+
+def built_diff(loaded_settings: dict, doc: dict):
+    """settings of the same objects built in Python (without pyxel.configuration) that differ from the loaded ones"""
+    import pyxel
+
+    mk = [k for k in ("exposure", "observation", "calibration") if k in doc][0]
+    dk = [k for k in DET_KEY.values() if k in doc][0]
+    d2 = copy.deepcopy(doc)
+    pyxel.set_options(working_directory=None)   # as at the start of a load
+    try:
+        b = _Built()
+        b.detector = py_detector(dk.split("_")[0], d2[dk])
+        b.pipeline = py_pipeline(d2["pipeline"])
+        b.running_mode = py_mode(mk, d2[mk])
+        sb = read_settings(b, doc)
+    except Exception as ex:  # noqa: BLE001
+        return {"raised": type(ex).__name__, "msg": str(ex)[:300]}
+    finally:
+        pyxel.set_options(working_directory=None)
+    skip = set()
+    if mk == "calibration" and "pygmo_seed" not in (doc[mk] or {}):
+        skip.add("mode.pygmo_seed")     # drawn at random when the file does not give it
+    keys = sorted(k for k in set(loaded_settings) | set(sb)
+                  if k not in skip and loaded_settings.get(k, "<missing>") != sb.get(k, "<missing>"))
+    return {"keys": keys[:12], "loaded": {k: loaded_settings.get(k, "<missing>") for k in keys[:6]},
+            "built": {k: sb.get(k, "<missing>") for k in keys[:6]}}
+
+
+def detector_settings(det) -> dict:
+    out = {}
+    for sec in ("geometry", "environment", "characteristics"):
+        for k, v in dict(getattr(det, sec).to_dict()).items():
+            if isinstance(v, dict):
+                for kk, vv in v.items():
+                    out[f"detector.{sec}.{k}.{kk}"] = jleaf(vv)
+            else:
+                out[f"detector.{sec}.{k}"] = jleaf(v)
+    return out
+
+
+def do_sweep_point(cfg, doc, op) -> dict:
+    """one point of a sweep over a detector setting: Processor.replace({key: value}) on the loaded objects"""
+    from pyxel.pipelines import Processor
+
+    before = detector_settings(cfg.detector)
+    try:
+        proc = Processor(detector=cfg.detector, pipeline=cfg.pipeline)
+        new = proc.replace({op["key"]: op["value"]})
+    except Exception as ex:  # noqa: BLE001
+        return {"raised": type(ex).__name__, "msg": str(ex)[:200], "before": before,
+                "after": detector_settings(cfg.detector)}
+    return {"settings": detector_settings(new.detector), "before": before, "after": detector_settings(cfg.detector)}
+
+
 def handle_settings(p):
     import pyxel
 
     doc = p["doc"]
     if "calibration" in doc:
-        for f in doc["calibration"].get("target_data_path", []):
+        for f in list(doc["calibration"].get("target_data_path", [])) + list(doc["calibration"].get("weights_from_file") or []):
             if not Path(f).exists():
                 np.savetxt(f, np.ones((2, 3)))
+    for name, vals in (p.get("files") or {}).items():
+        np.save(name, np.asarray(vals, dtype=float))
     try:
         cfg = pyxel.load(dump_yaml(doc, "settings"))
     except Exception as ex:  # noqa: BLE001
         return {"loaded": False, "exc": type(ex).__name__, "msg": str(ex)[:300]}
     out = {"loaded": True, "settings": read_settings(cfg, doc)}
+    out["built_diff"] = built_diff(out["settings"], doc)
+    if p.get("derive"):
+        out["derived"] = [do_derive(cfg, op) for op in p["derive"]]
+    if p.get("sweeps"):
+        out["swept"] = [do_sweep_point(cfg, doc, op) for op in p["sweeps"]]
     if p.get("run"):
         out["run"] = run_both(cfg, doc)
     return out
@@ -463,6 +730,9 @@ def handle(p):
     import warnings
 
     warnings.filterwarnings("ignore")
+    import pyxel
+
+    pyxel.set_options(working_directory=None)   # a previous document of this worker may have set it
     k = p["k"]
     if k == "guard":
         return handle_guard(p)
@@ -470,4 +740,6 @@ def handle(p):
         return handle_keys(p)
     if k == "settings":
         return handle_settings(p)
+    if k == "sweeprun":
+        return handle_sweeprun(p)
     raise ValueError(k)
